@@ -173,7 +173,9 @@ structure Cfg where
   checkLevel : Nat
 
 /-- One item whose statement became citable (ghost output, used to state the theorems):
-position, rule, the sequent the rule produced (`none` for `sorry`), the sequent now stored. -/
+position, rule, the sequent the rule produced, the sequent now stored.  `computed = none` marks a
+statement nobody computed: a placeholder (rule = gap rule) or, under `compute_only`, a stated
+sequent taken on trust (any other rule). -/
 structure Ev where
   pos : List Nat
   rule : String
@@ -269,11 +271,19 @@ def checkItem (R : Rules) (cfg : Cfg) : Nat → List Item → List Nat → Item 
         if cfg.noGaps then .error (.check .gaps)
         else .ok ⟨root, [t], [⟨pos, seq.rule, none, t⟩]⟩
     else if cfg.computeOnly && seq.th.isSome then
-      (if seq.rule = "subproof" then
-        match seq.sub with
-        | none => .error .crash
-        | some s => checkList (checkItem R cfg fuel) pos root 0 s
-      else .ok ⟨root, [], []⟩)
+      -- compute_only: a stated sequent is taken on trust (event with `computed = none` whose rule
+      -- is not the gap rule); the contents of a block are still walked
+      match seq.th with
+      | none => .ok ⟨root, [], []⟩
+      | some t =>
+        if seq.rule = "subproof" then
+          match seq.sub with
+          | none => .error .crash
+          | some s =>
+            match checkList (checkItem R cfg fuel) pos root 0 s with
+            | .error e => .error e
+            | .ok o => .ok ⟨o.root, o.gaps, o.trace ++ [⟨pos, seq.rule, none, t⟩]⟩
+        else .ok ⟨root, [], [⟨pos, seq.rule, none, t⟩]⟩
     else if seq.rule = "theorem" then
       match R.thm seq.args with
       | .error .theory => .error (.check .theoremNotFound)
